@@ -34,11 +34,11 @@ def validate_traces(ctx, specdir, module, cfg, trace_files, merged_name="traces.
         raise NoVerdict("no traces recorded")
     with open(os.path.join(SPEC, specdir, cfg)) as fh:
         cfg_text = re.sub(r"K = \d+", "K = %d" % min(lanes, len(recs)), fh.read())
-    res = tlc(ctx, specdir, module, cfg, files=[merged], workers=NCPU, timeout=3000, extra=["-continue"],
+    res = tlc(ctx, specdir, module, cfg, files=[merged], workers=NCPU, timeout=3000, 
               expect_violation=True, cfg_text=cfg_text)
     ctx.tlc_states += res.distinct
     ctx.tlc_transitions += max(res.generated - 1, 0)
     bad = bad_traces(res)
-    if not bad and not res.ok:
-        raise NoVerdict("trace validation failed without naming a trace:\n%s" % (res.violation or "")[:3000])
+    if not res.ok:
+        raise NoVerdict("trace validation did not complete:\n%s" % (res.violation or "")[:3000])
     return recs, bad, res
